@@ -1033,6 +1033,13 @@ pub fn run_stream(name: &str, thorough: bool, rng: &mut Rng, o: &mut Out) {
             for t in intervals(&chain_big()) {
                 o.rround(&t);
             }
+            // unions of intervals around the cuts of the chain (lowest versions, empty-looking alternatives such as
+            // `<0.0.0`, neighbours): what a printer that prunes or merges alternatives gets wrong
+            let base = parsed(intervals(&chain_big()));
+            for _ in 0..3000 * scale {
+                let (t, _) = gen_multi(rng, &base);
+                o.rround(&t);
+            }
         }
         "c02" => {
             // pairs of comparator lists (no hyphen form) for the AND law, arbitrary texts for the OR law
@@ -1206,7 +1213,7 @@ pub fn run_stream(name: &str, thorough: bool, rng: &mut Rng, o: &mut Out) {
             }
             // semantic coincidences: comparators written differently whose bounds meet after desugaring
             // (`~1.2` / `<1.3.0-0` / `1.2.x` / `>=1.2.0` / `1.2.3 - 1.3` …), paired with each other
-            for _ in 0..700 * scale {
+            for _ in 0..700 * (if thorough { 5 } else { 1 }) {
                 let (a, b, c) = (gen_component(rng, false).min(MAX - 2), gen_component(rng, false).min(MAX - 2), gen_component(rng, false).min(MAX - 2));
                 let tags = ["", "", "-0", "-alpha", "-alpha.0", "-rc.1", "-1"];
                 let tag = *rng.pick(&tags);
@@ -1323,8 +1330,8 @@ pub fn run_stream(name: &str, thorough: bool, rng: &mut Rng, o: &mut Out) {
         "setops_giant" => {
             // one operand with thousands of alternatives against small operands, with the *answers* judged
             // (model + oracle on a sample of the bounds), not only the absence of a crash
-            for i in 0..(if thorough { 6 } else { 1 }) {
-                let n = if thorough { *rng.pick(&[3000usize, 7000, 12000]) } else { 1100 + rng.below(300) };
+            for i in 0..(if thorough { 4 } else { 1 }) {
+                let n = if thorough { *rng.pick(&[3000usize, 5000, 8000]) } else { 1100 + rng.below(300) };
                 let stride = 2 + (i % 2) as u64;
                 let ta = (0..n as u64)
                     .map(|k| {
@@ -1440,7 +1447,7 @@ pub fn run_stream(name: &str, thorough: bool, rng: &mut Rng, o: &mut Out) {
         }
         "setops_big" => {
             let base = parsed(intervals(&chain_big()));
-            let n = if thorough { 400000 } else { 12000 };
+            let n = if thorough { 200000 } else { 12000 };
             for _ in 0..n {
                 let (ta, a) = rng.pick(&base);
                 let (tb, b) = rng.pick(&base);
